@@ -54,12 +54,17 @@ def Frame.ids : Frame → List Id
   | .regInsert owner _ _ _ => [owner]
   | _ => []
 
-structure Counts (w : World) : Prop where
+/-- `ex = true`: the exact form (no leak so far): counts are also not *above* the existing pointers. -/
+structure CountsG (ex : Bool) (w : World) : Prop where
   le : ∀ x, refs w x ≤ (w.heap x).rc
+  ge : ex = true → ∀ x, (w.heap x).rc ≤ refs w x
   fresh : ∀ x, w.next ≤ x → refs w x = 0
   frames : ∀ f ∈ w.stack, ∀ i ∈ f.ids, i < w.next
   pcb : ∀ x ∈ w.pc, x < w.next
   mfresh : ∀ x, w.next ≤ x → (w.metas x).accessible = false
+
+/-- The invariant for every history (a caught panic may leak: `≤` only). -/
+abbrev Counts (w : World) : Prop := CountsG false w
 
 /-! ### Sums over the allocated range with one object changed -/
 
